@@ -362,6 +362,31 @@ def check_variants(a):
     return rows, n
 
 
+EMPTY_STDIN_STACKS = [[], ["51"], ["51", "52"], ["00"], ["6a", "01"], ["@2", "@3"], ["69", "@0"], ["0100"], ["aabbcc", "51", "@17"], ["@[OP_VERIFY]", "@0"]]
+
+
+def check_empty_stdin(bdir, scratch):
+    """stdin is a pipe at end of input (</dev/null): there is no script text, exactly as with a blank line - the stack arguments stay stack
+    arguments (none of them may be taken for the script). Differential: EOF delivery == blank-line delivery, for every stack list x {-, -q}."""
+    cwd = os.path.join(scratch, "e%d" % os.getpid())
+    os.makedirs(cwd, exist_ok=True)
+    exe = os.path.join(bdir, "btcdeb")
+    rows, n = [], 0
+    for stack in EMPTY_STDIN_STACKS:
+        for opt in ([], ["-q"]):
+            argv = [exe] + opt + [_arg(x) for x in stack]
+            got = []
+            for data in (b"\n", b""):
+                b = pu.run_proc(argv, data=data, stdin="pipe", stdout="pipe", cwd=cwd)
+                n += 1
+                got.append({"hang": b["hang"], "rc": b["rc"], "sig": b["sig"], "out": b["out"], "errtext": first_error_line(b["err"])})
+            if got[0] != got[1]:
+                f = [k for k in ("hang", "sig", "rc", "out", "errtext") if got[0][k] != got[1][k]][0]
+                rows.append(("empty-stdin-differs-from-blank-line:%s" % f, "btcdeb %s with stdin at end of input: %s %r; with a blank line on stdin: %r (no script text in both cases)"
+                             % (" ".join(opt + [_arg(x) for x in stack]), f, got[1][f], got[0][f]), {"kind": "empty-stdin", "stack": stack, "opt": opt}, "empty-stdin" + " ".join(stack) + "".join(opt)))
+    return rows, n
+
+
 def check_verbose(a):
     bdir, scratch, rep = a
     cwd = os.path.join(scratch, "w%d" % os.getpid())
@@ -598,6 +623,9 @@ def run(ctx):
             for rows, n in pool.imap_unordered(check_verbose, [(bdir, scratch, r) for r in vreps], 1):
                 V.merge_rows(rows)
                 nverb += n
+            rows, n_empty_stdin = check_empty_stdin(bdir, scratch)
+            V.merge_rows(rows)
+            nproc += n_empty_stdin
     finally:
         shutil.rmtree(scratch, ignore_errors=True)
     crashes = sum(c for k, c in hist.items() if k.startswith("crash:"))
@@ -672,6 +700,9 @@ def _replay_once(ctx, scratch, rp):
     if rp["kind"] == "verbose":
         rows, n = check_verbose((ctx.bdir, scratch, rp["rep"]))
         return [(k, w) for k, w, r, _ in rows if r["delivery"] == rp["delivery"] and r["option"] == rp["option"]], {}
+    if rp["kind"] == "empty-stdin":
+        rows, n = check_empty_stdin(ctx.bdir, scratch)
+        return [(k, w) for k, w, r, _ in rows if r["stack"] == rp["stack"] and r["opt"] == rp["opt"]], {}
     raise SystemExit("unknown replay kind")
 
 
